@@ -287,7 +287,7 @@ var policies = []policySpec{
 }
 
 const (
-	pairRealReal = iota
+	pairRealReal  = iota
 	pairRefClient // reference initiator <-> real server
 	pairRefServer // real client <-> reference responder
 	nPairings
